@@ -21,6 +21,8 @@ import GrcVerif.Cmap
 import GrcVerif.LineMap
 import GrcVerif.StaticRules
 import GrcVerif.Octabox
+import GrcVerif.Args
+import GrcVerif.Generated.ArgConsts
 namespace Grc.Driver
 
 structure State where
@@ -355,6 +357,45 @@ def cmdC14 (st : State) : Except String (List String) := do
               out := out ++ [s!"pass {p} FAIL rule {ri} (line {r.line}) has no key item: glyph string {witness} consists only of glyphs marked skippable for pass {p} yet the rule matches it"]
   return out ++ ["done"]
 
+/-- `args h1 h2 ...`: each argument hex-encoded (`.` = empty string). Runs the model of main's argument handling
+    at the constants extracted from the source. -/
+def cmdArgs (hs : List String) : List String :=
+  let dec (h : String) : Option Args.CStr :=
+    if h == "." then some [] else
+      let cs := h.toList
+      if cs.length % 2 != 0 then none else
+        let rec go : List Char → Option (List Nat)
+          | a :: b :: rest =>
+            let hv (c : Char) : Option Nat :=
+              if c.isDigit then some (c.toNat - 48) else if 'a' ≤ c ∧ c ≤ 'f' then some (c.toNat - 87) else none
+            match hv a, hv b, go rest with
+            | some x, some y, some r => some ((x * 16 + y) :: r)
+            | _, _, _ => none
+          | [] => some []
+          | _ => none
+        go cs
+  match hs.mapM dec with
+  | none => ["bad-op"]
+  | some argv =>
+    let r := Args.parseArgs Gen.argConsts argv
+    let hex (l : Args.CStr) : String :=
+      if l.isEmpty then "." else String.join (l.map fun n =>
+        let d (k : Nat) : Char := if k < 10 then Char.ofNat (48 + k) else Char.ofNat (87 + k)
+        String.ofList [d (n / 16), d (n % 16)])
+    let maxw (b : Args.Buf) : String :=
+      match (r.writes.filter (·.buf == b)).map (·.idx) |>.foldl (fun (a : Option Nat) x => some (match a with | some m => max m x | none => x)) none with
+      | some m => toString m
+      | none => "-"
+    let tail := s!" maxrgch={maxw .rgch} maxout={maxw .outFile} maxfam={maxw .family}"
+    match r.outcome with
+    | .crash why => [s!"outcome=crash why={why}" ++ tail]
+    | .usage => ["outcome=usage" ++ tail]
+    | .tooLong => ["outcome=toolong" ++ tail]
+    | .tooLongDerived => ["outcome=toolongderived" ++ tail]
+    | .proceed o g f out fam =>
+      let b (x : Bool) := if x then "1" else "0"
+      [s!"outcome=proceed gdl={hex g} font={hex f} out={hex out} fam={match fam with | some x => hex x | none => "-"} err={match o.errFile with | some x => hex x | none => "-"} quiet={b o.quiet} dbgxml={b o.dbgXml} dbgall={b o.dbgAll} compress={b o.compress}" ++ tail]
+
 def cmdMainSM (args : List String) : List String :=
   match args.mapM (fun a => if a == "1" then some true else if a == "0" then some false else none) with
   | some [x1, x2, x3, x4, x5, x6, x7, x8, x9, x10, x11, x12, x13, x14, x15] =>
@@ -567,7 +608,8 @@ def cmdExpand (st : State) : State × List String := Id.run do
       | none => rules := rules ++ [r]
       | some tree =>
         nOpt := nOpt + 1
-        let spec := (Opt.specAlternatives tree).filter (fun k => !k.isEmpty)
+        let mods := r.items.map (·.mod)
+        let spec := (Opt.specAlternatives tree).filter (Opt.isRuleVersion mods)
         let (treeRanges, nItems) := Opt.rangesOf tree 0
         if nItems != r.items.length then out := out ++ [s!"IRERR pass {pj.index} rule {ri}: tree has {nItems} items, rule has {r.items.length}"]
         if treeRanges.mergeSort (fun a b => a.1 < b.1 ∨ (a.1 == b.1 ∧ a.2 ≥ b.2)) != r.opt.mergeSort (fun a b => a.1 < b.1 ∨ (a.1 == b.1 ∧ a.2 ≥ b.2)) then
@@ -577,7 +619,7 @@ def cmdExpand (st : State) : State × List String := Id.run do
         -- idempotent: a later copy of a rule can never fire. The list installed is the model's, so that rule counts
         -- and indices are compared exactly with the font.
         let mut use := spec
-        match Opt.modelAlternatives r.opt r.items.length with
+        match (Opt.modelAlternatives r.opt r.items.length).map (·.filter (Opt.isRuleVersion mods)) with
         | none => out := out ++ [s!"MODELDIFF pass {pj.index} rule {ri}: model reports overlapping ranges for a laminar tree"]
         | some m =>
           if m.eraseDups != spec.eraseDups then out := out ++ [s!"MODELDIFF pass {pj.index} rule {ri}: model {m} spec {spec}"]
@@ -740,6 +782,7 @@ def step (st : State) (toks : List String) : IO (State × List String) := do
     | .ok ls => return (st, ls)
     | .error e => return (st, [s!"error {e}", "done"])
   | "mainsm" :: args => return (st, cmdMainSM args)
+  | "args" :: hs => return (st, cmdArgs hs)
   | ["plainhex", tag] =>
     -- table bytes with the compression framing undone (Silf >= 5.0, Glat >= 3.0), as hex
     match getTable st (strTag tag) with
